@@ -19,7 +19,7 @@ META = common.meta(
 
 def tasks(tier, seed):
     out = []
-    n = 40 if tier == 'quick' else 300
+    n = 40 if tier == 'quick' else common.thorough(300)
     for k in range(n):
         out.append(('vt.props.c18', 't3_case', {'seed': seed, 'k': k, 'backend': 'T3', 'variant': ['hosvd', 'hosvd', 'hocur'][k % 3],
                                                 'sig': ['hosvd', 'hosvd', 'hocur'][k % 3]}))
